@@ -106,6 +106,7 @@ func c06Try(o *Out, key, desc string, f func()) (ok bool) {
 // c06CheckShape compares every accessor of the Shape interface with the model's tables.
 // table[v] is the point of vertex number v.
 func c06CheckShape(o *Out, c *c06ShapeCase, variant string, sh s2.Shape, table []s2.Point) {
+	c06CheckEdgeless(o, c, variant, sh)
 	kind := c.Kind + variant
 	desc := func(what string) string {
 		return fmt.Sprintf("%s on %s vc=%v depth=%v", what, kind, c.VC, c.Depth)
@@ -177,6 +178,70 @@ func c06CheckShape(o *Out, c *c06ShapeCase, variant string, sh s2.Shape, table [
 	}
 }
 
+// c06CheckSpecialRegion: a full shape contains every point and cell, an empty shape none;
+// through the region's own methods and through a ShapeIndex (the model's IsFull / IsEmpty).
+func c06CheckSpecialRegion(o *Out, c *c06ShapeCase, variant string, reg s2.Region, sh s2.Shape) {
+	kind := c.Kind + variant
+	want := c.Full
+	idx := s2.NewShapeIndex()
+	idx.Add(sh)
+	q := s2.NewContainsPointQuery(idx, s2.VertexModelSemiOpen)
+	for n := 0; n < 6; n++ {
+		p := c06Pt(3 * n)
+		cell := s2.CellFromCellID(s2.CellFromPoint(p).ID().Parent(3 + 4*n))
+		what := fmt.Sprintf("%s, point/cell %d", kind, n)
+		c06Try(o, "shapes/special-ContainsCell-panic/"+kind, what, func() {
+			if g := reg.ContainsCell(cell); g != want {
+				o.Fail("shapes/special-ContainsCell/"+kind, "ContainsCell = %v on %s, model %v", g, what, want)
+			}
+		})
+		c06Try(o, "shapes/special-IntersectsCell-panic/"+kind, what, func() {
+			if g := reg.IntersectsCell(cell); g != want {
+				o.Fail("shapes/special-IntersectsCell/"+kind, "IntersectsCell = %v on %s, model %v", g, what, want)
+			}
+		})
+		c06Try(o, "shapes/special-ContainsPointQuery-panic/"+kind, what, func() {
+			if g := q.Contains(p); g != want {
+				o.Fail("shapes/special-ContainsPointQuery/"+kind, "ContainsPointQuery.Contains = %v on %s, model %v", g, what, want)
+			}
+		})
+	}
+}
+
+// c06CheckEdgeless: a shape without edges in a ShapeIndex.  It contains every point iff the
+// model says it is full (a 2-dimensional shape with a chain), and no query edge crosses it.
+func c06CheckEdgeless(o *Out, c *c06ShapeCase, variant string, sh s2.Shape) {
+	if c.NumEdges != 0 {
+		return
+	}
+	kind := c.Kind + variant
+	idx := s2.NewShapeIndex()
+	idx.Add(sh)
+	what := fmt.Sprintf("%s vc=%v", kind, c.VC)
+	c06Try(o, "shapes/edgeless-index-panic/"+kind, what, func() {
+		for m, model := range w2Models {
+			q := s2.NewContainsPointQuery(idx, model)
+			for n := 0; n < 5; n++ {
+				p := c06Pt(5*n + 1)
+				if g := q.Contains(p); g != c.Full {
+					o.Fail("shapes/edgeless-Contains/"+kind, "ContainsPointQuery(%s).Contains = %v for an index holding only %s, model (IsFull) %v", w2ModelNames[m], g, what, c.Full)
+				}
+				if g := q.ShapeContains(sh, p); g != c.Full {
+					o.Fail("shapes/edgeless-ShapeContains/"+kind, "ContainsPointQuery(%s).ShapeContains = %v for %s, model (IsFull) %v", w2ModelNames[m], g, what, c.Full)
+				}
+			}
+		}
+		ceq := s2.NewCrossingEdgeQuery(idx)
+		a, b := c06Pt(2), c06Pt(9)
+		if r := ceq.Crossings(a, b, sh, s2.CrossingTypeAll); len(r) != 0 {
+			o.Fail("shapes/edgeless-Crossings/"+kind, "Crossings = %v for %s", r, what)
+		}
+		if r := ceq.CrossingsEdgeMap(a, b, s2.CrossingTypeAll); len(r) != 0 {
+			o.Fail("shapes/edgeless-CrossingsEdgeMap/"+kind, "CrossingsEdgeMap has %d entries for %s", len(r), what)
+		}
+	})
+}
+
 func opShape(raw json.RawMessage, o *Out) {
 	var c c06ShapeCase
 	if err := json.Unmarshal(raw, &c); err != nil {
@@ -227,16 +292,21 @@ func opShape(raw json.RawMessage, o *Out) {
 		c06CheckShape(o, &c, "", s2.LoopFromPoints(t), t)
 	case "EmptyLoop":
 		c06CheckShape(o, &c, "", s2.EmptyLoop(), nil)
+		c06CheckSpecialRegion(o, &c, "", s2.EmptyLoop(), s2.EmptyLoop())
 	case "FullLoop":
 		c06CheckShape(o, &c, "", s2.FullLoop(), nil)
+		c06CheckSpecialRegion(o, &c, "", s2.FullLoop(), s2.FullLoop())
 	case "EmptyPolygon":
 		c06CheckShape(o, &c, "", s2.PolygonFromLoops(nil), nil)
 		c06CheckShape(o, &c, "/FromEmptyLoop", s2.PolygonFromLoops([]*s2.Loop{s2.EmptyLoop()}), nil)
 		c06CheckShape(o, &c, "/Lax", s2.LaxPolygonFromPolygon(s2.PolygonFromLoops(nil)), nil)
+		c06CheckSpecialRegion(o, &c, "", s2.PolygonFromLoops(nil), s2.PolygonFromLoops(nil))
 	case "FullPolygon":
 		c06CheckShape(o, &c, "", s2.FullPolygon(), nil)
 		c06CheckShape(o, &c, "/FromFullLoop", s2.PolygonFromLoops([]*s2.Loop{s2.FullLoop()}), nil)
 		c06CheckShape(o, &c, "/Lax", s2.LaxPolygonFromPolygon(s2.FullPolygon()), nil)
+		c06CheckSpecialRegion(o, &c, "", s2.FullPolygon(), s2.FullPolygon())
+		c06CheckSpecialRegion(o, &c, "/FromFullLoop", s2.PolygonFromLoops([]*s2.Loop{s2.FullLoop()}), s2.PolygonFromLoops([]*s2.Loop{s2.FullLoop()}))
 	case "LaxPolygon":
 		t := flat()
 		c06CheckShape(o, &c, "", s2.LaxPolygonFromPoints(split(t)), t)
